@@ -20,6 +20,7 @@ SED = [  # (id, property, file, regex, replacement, what)
  ('M-C13-no-deactivate', 'C13', 'des/src/net/runtime/unwind.rs', r'self\.ctx\.active\.store\(false, Ordering::SeqCst\);', '', 'panicking module stays active'),
  ('M-C14-down-forward', 'C14', 'des/src/net/processing.rs', r'\(0\.\.self\.stack\.items\.len\(\)\)\.rev\(\)', '(0..self.stack.items.len())', 'event_end in stack order instead of reverse'),
  ('M-C15-unaligned-ptr', 'C15', 'des-cqueue/src/stable/alloc.rs', r'Ok\(alloc_start as \*mut u8\)', 'Ok(region.start_addr() as *mut u8)', 'allocator returns the unaligned region start'),
+ ('M-C15-read-after-unlink', 'C15', 'des-cqueue/src/stable/linked_list.rs', r'drop\(cur\);\n                    return true;', 'let _payload = std::ptr::read(&cur.value);\n                    drop(cur);\n                    return true;', 'cancel makes a bitwise copy of the payload after unlinking: payload dropped twice'),
  ('M-C15-fit', 'C15', 'des-cqueue/src/stable/alloc.rs', r'if alloc_end > region\.end_addr\(\)', 'if alloc_end >= region.end_addr() + 8', 'fit test admits blocks beyond the region'),
  ('M-C16-unchecked-content', 'C16', 'des/src/net/message/body.rs', r'self\.is::<T>\(\)\.then\(\|\| unsafe \{ &\*self\.data\.cast::<T>\(\) \}\)', 'Some(unsafe { &*self.data.cast::<T>() })', 'try_content reinterprets without the type test'),
  ('M-C04-unseeded-first-rt', 'C04', 'des/src/net/module/ctx/rt.rs', r'builder\s*\.rng_seed\(seed\)\s*\.build\(\)', 'builder.build()', 'first tokio runtime built without rng_seed'),
@@ -103,13 +104,20 @@ def _par(e):
 
 
 _jobs = next((int(a.split('=')[1]) for a in sys.argv[1:] if a.startswith('--jobs=')), 1)
+# --only=id,id,... : re-run just these entries (seed ids without the 'seed-' prefix) and merge them into the existing index
+_only = next((set(a.split('=')[1].split(',')) for a in sys.argv[1:] if a.startswith('--only=')), None)
 if _jobs > 1:
     import multiprocessing as mp
     os.environ.setdefault('DESFACTS_CACHE_MAX', '1300')
     order = {e['id']: i for i, e in enumerate(entries)}
     out = []
+    todo = entries
+    if _only is not None:
+        old = {e['id']: e for e in json.load(open(os.path.join(V, 'selftest', 'index.json')))}
+        todo = [e for e in entries if (e['id'][5:] if e['id'].startswith('seed-') else e['id']) in _only or e['id'] not in old]
+        out = [old[e['id']] for e in entries if e['id'] in old and e not in todo]
     with mp.Pool(_jobs) as pool:
-        for e in pool.imap_unordered(_par, entries):
+        for e in pool.imap_unordered(_par, todo):
             print(e['id'], e['status'], e.get('expect_rules'), flush=True)
             out.append(e)
     out.sort(key=lambda e: order[e['id']])
